@@ -326,6 +326,69 @@ def applied_shard(kind, sign, T, delayed=False):
     return tally
 
 
+def reuse_shard(kind, sign, mode, delay_cfg, keepshape):
+    """Part D: one cell re-used across histories. Every ordered pair (A, B) of histories of length 2 rides the batch: A is run,
+    then layer.clear(), trainer.clear(keepshape=...), updater.clear(), then B - the parts accumulated during B must equal the pair
+    sums of B alone (nothing of A may survive in traces, event times or the synapse's delay history)."""
+    tally = Tally()
+    spec = Cellspec("dense", 1, 1)
+    dt, T, gamma = 1.0, 2, 0.5
+    hs1 = all_histories(T, 2)
+    pairs = list(itertools.product(hs1, hs1))
+    B = len(pairs)
+    three = kind in ("mstdp", "mstdpet")
+    if delay_cfg is None:
+        variants = [(None, None, None)]
+    else:
+        dmode, k = delay_cfg
+        variants = [(dmode, 2 * dt, torch.full(spec.wshape, k * dt))]
+    for dmode, maxdelay, delays in variants:
+        case = {"trainer": kind, "sign": sign, "trace_mode": mode, "delayed_mode": dmode, "delays": None if delays is None else delays.tolist(),
+                "keepshape": keepshape, "part": "cell re-used after clear", "batch=pairs": B}
+        tally.add("evaluations")
+        if kind == "mstdpet" and dmode == "delayed":
+            continue
+        try:
+            layer = spec.build(dt, B, maxdelay, delays)
+            trainer = make_trainer(kind, sign, mode, dmode == "delayed", identity_reduction)
+            trainer.register_cell("cell", layer.cell)
+            for phase in (0, 1):
+                for t in range(T):
+                    pre = [[p[phase][t][0]] for p in pairs]
+                    pst = [[p[phase][t][1]] for p in pairs]
+                    step_layer(layer, spec.pre_tensor(pre), spec.post_tensor(pst))
+                    if three:
+                        trainer(float(signal_for(t, 1, "stepalt")[0]), gamma)
+                    else:
+                        trainer()
+                if phase == 0:
+                    layer.clear()
+                    trainer.clear(keepshape=keepshape)
+                    layer.connection.updater.clear()
+        except Exception as ex:
+            tally.violation(f"exception:reuse:{kind}:{dmode}:{type(ex).__name__}", case, f"{type(ex).__name__}: {ex}", None, repr(ex))
+            continue
+        preB = torch.stack([spec.pre_syn([[p[1][t][0]] for p in pairs]) for t in range(T)], 0)
+        postB = torch.stack([spec.post_ref([[p[1][t][1]] for p in pairs]) for t in range(T)], 0)
+        sigs = torch.stack([signal_for(t, B, "stepalt") for t in range(T)], 0)
+        rp, rn = reference(kind, sign, mode, dt, preB, postB, spec.delays_to_K(delays, dt), sigs, gamma)
+        exp = spec.to_weight_space((rp + rn).sum(0))
+        acc = layer.connection.updater.weight
+        z = torch.zeros(B, *spec.wshape, dtype=F64)
+        got = (z if acc.pos is None else acc.pos.to(F64)) - (z if acc.neg is None else acc.neg.to(F64))
+        diff = (got - exp).abs().reshape(B, -1).amax(1)
+        bi = (diff > 1e-5).nonzero().reshape(-1)
+        if len(bi):
+            b = int(bi[0])
+            tally.violation(f"reuse-after-clear:{kind}:{mode}:{dmode}:keepshape={keepshape}", {**case, "history_before_clear": pairs[b][0], "history_after_clear": pairs[b][1]},
+                            f"after history {pairs[b][0]} and clear(), history {pairs[b][1]} accumulated {got[b].reshape(-1).tolist()} but alone it gives "
+                            f"{exp[b].reshape(-1).tolist()}", exp[b].tolist(), got[b].tolist())
+        tally.mark("nontrivial", ("reuse", kind, sign, mode, dmode, keepshape))
+    tally.add("histories", B)
+    tally.sample({"part": "re-use after clear", "trainer": kind, "pairs_as_batch": B})
+    return tally
+
+
 def multicell_shard(kind, sign, T):
     """one trainer, TWO cells (two layers) with different histories; for the three-factor rules a per-sample signal TENSOR
     (batch of one) with scale != 1: every cell's update equals its own single-cell reference"""
@@ -408,6 +471,10 @@ def run(rep):
             jobs.append((applied_shard, (kind, sign, 3 if quick else 4)))
             if kind in ("stdp", "mstdp"):
                 jobs.append((applied_shard, (kind, sign, 3 if quick else 4, True)))
+        for mode in ("cumulative", "nearest"):
+            for dcfg in (None, ("frozen", 1), ("frozen", 2), ("delayed", 1), ("delayed", 2)):
+                for keepshape in (False, True):
+                    jobs.append((reuse_shard, (kind, "hebbian", mode, dcfg, keepshape)))
         for redname in ("default", "sum", "mean"):
             # the per-sample signal path routes every (sample, term) by lr sign x signal sign: all four sign modes there
             for sign in (tuple(SIGNS) if (kind in ("mstdp", "mstdpet") and redname != "mean") else ("hebbian", "dep")):
